@@ -1,9 +1,9 @@
 //! Correspondence harness: runs the real crate on generated / replayed inputs and
 //! writes Coq case files in which the model is evaluated and compared.
-mod c07;
-mod c08;
-mod c14;
 mod util;
+mod registry {
+    include!(concat!(env!("OUT_DIR"), "/registry.rs"));
+}
 
 use serde_json::Value;
 use util::*;
@@ -17,6 +17,15 @@ fn main() {
     let args: Vec<String> = std::env::args().collect();
     if args.len() < 2 {
         usage();
+    }
+    if args[1] == "tool" {
+        if args.len() < 3 {
+            usage();
+        }
+        match registry::tool(&args[2], &args[3..]) {
+            Some(rc) => std::process::exit(rc),
+            None => usage(),
+        }
     }
     let prop = args[1].clone();
     let mut out = String::new();
@@ -71,20 +80,10 @@ fn main() {
             }
         }
         let mut rng = Rng::new(seed);
-        let gen = match prop.as_str() {
-            "C07" => c07::generate(&mut rng, n),
-            "C08" => c08::generate(&mut rng, n, tier == "thorough"),
-            "C14" => c14::generate(&mut rng, n),
-            _ => usage(),
-        };
+        let gen = registry::generate(&prop, &mut rng, n, &tier).unwrap_or_else(|| usage());
         inputs.extend(gen);
     }
-    let batch = match prop.as_str() {
-        "C07" => c07::batch(&inputs),
-        "C08" => c08::batch(&inputs),
-        "C14" => c14::batch(&inputs),
-        _ => usage(),
-    };
+    let batch = registry::batch(&prop, &inputs).unwrap_or_else(|| usage());
     batch.write(&out, shard).expect("write cases");
     println!("harness: {} cases written to {}", batch.cases.len(), out);
 }
